@@ -34,6 +34,9 @@ func (s *scanner) setPaging(query ast.Query) {
 		query.SetSkip(0)
 	}
 	s.targetOffset = *query.GetSkip()
+	if s.targetOffset < 0 {
+		s.targetOffset = 0
+	}
 
 	if query.GetLimit() == nil || *query.GetLimit() < 0 {
 		query.SetLimit(math.MaxInt64)
@@ -236,7 +239,10 @@ func (scanner *sortingScanner) ScanCursor(tx *bbolt.Tx, cursorProvider ast.SetCu
 	// function instead of putting the comparison on the elements, so we don't need to store a context with each row
 	results := &llrb.Tree{}
 	isChildStore := scanner.store.IsChildStore()
-	maxResults := scanner.targetOffset + scanner.targetLimit
+	maxResults := int64(math.MaxInt64)
+	if scanner.targetLimit <= math.MaxInt64-scanner.targetOffset {
+		maxResults = scanner.targetOffset + scanner.targetLimit
+	}
 	for cursor.IsValid() {
 		current := cursor.Current()
 		cursor.Next()
